@@ -132,12 +132,11 @@ impl PayloadEncode for &UdpDatagram {
                 self.payload.len(),
             );
 
-            let checksum = ChecksumDigest::with_pseudoheader(
-                address_header,
-                ProtocolNumber::Udp.into(),
-                &buf[0..self.required_size(header_and_extensions_size)],
-            )
-            .checksum();
+            let datagram = &buf[0..self.required_size(header_and_extensions_size)];
+            let checksum =
+                ChecksumDigest::with_pseudoheader(address_header, ProtocolNumber::Udp.into(), datagram)
+                    .add_slice(datagram)
+                    .checksum();
             unchecked_bit_range_be_write::<u16>(buf, L::CHECKSUM_RNG, checksum);
         }
 
